@@ -69,7 +69,7 @@ When done, leave the worktree with your patch applied and the demo test in place
             avoid.append(json.load(open(mp)).get('summary', ''))
         except Exception:
             pass
-    if avoid:
+    if avoid and os.environ.get('SEED_AVOID') == '1':  # off by default: sub-agents get the property text and a worktree only
         t += "\n## Already known — do something DIFFERENT\n\nOther people already produced the following changes for this property; yours must break the property through a different mechanism, at a different place:\n" + "".join(f"- {a}\n" for a in avoid if a)
     os.makedirs(f'/tmp/seed/{pid}', exist_ok=True)
     open(f'/tmp/seed/{pid}/TASK.md', 'w').write(t)
